@@ -1,5 +1,6 @@
-"""print the markdown table of DESIGN.md Appendix D from seeded/*/meta.json"""
+"""regenerate the markdown table of DESIGN.md Appendix D from seeded/*/meta.json (between the SEED-TABLE markers)"""
 import json
+import re
 from pathlib import Path
 ROOT = Path(__file__).resolve().parent.parent
 rows = []
@@ -8,10 +9,15 @@ for d in sorted((ROOT / "seeded").iterdir()):
     c = m.get("confirmed", {}).get("checks", {})
     caught = ", ".join(f"{k}: {'caught' if v['caught'] else 'MISSED' if v['exit']==0 else 'exit '+str(v['exit'])}" for k, v in c.items())
     first = "; ".join((v["first_findings"][0][:110] if v["first_findings"] else "") for v in c.values())
-    summ = (m.get("summary") or "")[:150].replace("|", "/")
+    summ = (m.get("summary") or "")[:170].replace("|", "/").replace("\n", " ")
     needs = (m.get("what_it_needs_to_manifest") or "")
     if isinstance(needs, list):
         needs = "; ".join(map(str, needs))
-    rows.append(f"| {d.name} | {summ} | {str(needs)[:130].replace('|','/')} | {caught} | {first.replace('|','/')} |")
-print("| seed | change | needs | checks | first finding reported |\n|---|---|---|---|---|")
-print("\n".join(rows))
+    hist = " (first MISSED, see history)" if m.get("history") else ""
+    rows.append(f"| {d.name} | {summ} | {str(needs)[:140].replace('|','/').replace(chr(10),' ')} | {caught}{hist} | {first.replace('|','/')} |")
+table = "| seed | change | needs | checks | first finding reported |\n|---|---|---|---|---|\n" + "\n".join(rows)
+p = ROOT / "DESIGN.md"
+s = p.read_text()
+s2 = re.sub(r"<!-- SEED-TABLE-BEGIN -->.*?<!-- SEED-TABLE-END -->", "<!-- SEED-TABLE-BEGIN -->\n" + table.replace("\\", "\\\\") + "\n<!-- SEED-TABLE-END -->", s, flags=re.S)
+p.write_text(s2)
+print(f"{len(rows)} seeds")
